@@ -27,7 +27,7 @@ CALLS = [(r'^operator\*\|[^|]*\|double$', 'nv_e_scale({0}, {1})'),
          (r'^isfinite\|', 'nv_isfinite({0})'),
          (r'^epsilon2\|', 'nv_epsilon2()'),
          (r'^max\|double \(initializer_list<double>\)', '@fold:nv_fmax'),
-         (r'^min\|const double &', 'nv_fmin({0}, {1})'), (r'^max\|double \(\) noexcept', 'nv_dbl_max()'),
+         (r'^min\|const double &', 'nv_fmin({0}, {1})'), (r'^max\|const double &', 'nv_fmax({0}, {1})'), (r'^max\|double \(\) noexcept', 'nv_dbl_max()'),
          (r'^done\|', 'solver_done'),
          (r'^make_smax\|', 'make_smax'),
          (r'^zero\|', 'nv_e_zero({0})'), (r'^constant\|', 'nv_e_nan({0})'), (r'^operator\(\)\|', 'nv_vec_at({&0}, {1})'),
@@ -142,8 +142,81 @@ def build(tier):
     ]
     return {
         'targets': targets, 'vcs': [],
-        'decided': [],
-        'not_decided': [],
-        'assumptions': [],
+        'decided': [
+            'solver_t::done: status\' == converged <=> program.feasible(state) && eta < eps && no residual norm (|rdual|, |rprim|) is >= eps; '
+            'otherwise unbounded if feasible, unfeasible if not; nothing but m_status is written (for norms that are not NaN this is literally '
+            'max(eta, |rdual|, |rprim|) < eps)',
+            'program_t::feasible(state) == (no equalities || |A x - b|_2 < eps2) && (no inequalities || max(G x - h) < eps2), evaluated on state.m_x',
+            'solve_with_inequality, status protocol: max(G x0 - h) >= 0 => unfeasible, zero iterations, no linear solve, no residual update, x == x0; '
+            'otherwise status == max_iters <=> iterations == max_iters, failed => a non-finite eta / |rdual| / |rprim| of the returned state, and '
+            'converged / unbounded / unfeasible are exactly the decision of done() evaluated on the RETURNED (x, eta, rdual, rprim); '
+            'all three loops terminate (variants), iteration count within [0, max_iters]',
+            'solve_with_inequality, advance protocol: the returned (x, u, v) are x0 or the result of in-place advances along (dx, du, dv) of the '
+            'same iteration with ONE common step s that lies between 0 and a step for which (G (x + s dx) - h).maxCoeff() < 0 was evaluated to '
+            'true for exactly that x and dx (inductive invariant of the outer loop)',
+            'solve_without_inequality: converged <=> valid && aprox, failed <=> !valid, unfeasible otherwise; returned x / v are the two segments '
+            'of the one KKT solution; exactly one linear solve',
+            'solver_state_t(n, m, p): status max_iters, zero iterations, all scalars NaN / 0 as declared (default member initialisers read from state.h)',
+            '::make_smax: every coefficient read in bounds (given its own assert u.size() == du.size()), loop terminates, result <= 1 and never NaN, '
+            'result >= 0 when every coefficient of u is > 0',
+        ],
+        'not_decided': [
+            'all numeric tolerances of the property (1e-6 (1+|b|), objective gap vs f*), correctness of infeasible / unbounded detection, '
+            'invariance under restatement: they depend on LDLT numerics',
+            'that the residual fields were computed at the returned m_x: deliberately not demanded (on the max_lsearch_iters exit of stage 2 they '
+            'may belong to the last trial point; the property\'s 100x allowance covers that)',
+            'make_smax over the reals: result in (0, 1] and u_i + smax du_i >= 0 (IEEE: the quotient can underflow to 0)',
+            'the size precondition of make_smax at its call site in solve_with_inequality (u and du both have m coefficients) needs Eigen size '
+            'reasoning; there make_smax is an arbitrary side-effect-free double',
+            'program_t::update / program_t::solve / solver_state_t::update / solver_state_t::residual bodies (Eigen algebra): havoc of what they assign',
+            'solver_t::solve dispatch (program_t construction, reduction of dependent equalities, normalisation)',
+        ],
+        'assumptions': [
+            'Eigen / tensor operators are pure functions of their operands\' values (uninterpreted algebra over value identities); views (array(), '
+            'matrix(), vector()) and copies / assignments denote the same value',
+            'lpNorm<2>() >= 0 or NaN; rows()/size() >= 0',
+            'program_t::update(x, u, v, miu, state) writes only state.m_fx, m_eta, m_rdual, m_rprim, m_rcent; program_t::solve writes only the mutable '
+            'buffers m_lmat, m_lvec, m_ldlt, m_lsol; solver_state_t::update writes only m_kkt; solver_state_t::residual is a function of '
+            '(m_rdual, m_rcent, m_rprim) (read off src/program/solver.cpp:121-186, state.cpp:18-63; arguments of update/solve are not translated)',
+            'program_t::feasible is a deterministic function of (A, b, G, h, state.m_x): implied by the contract proved in target program_feasible, '
+            'used as one uninterpreted symbol inside solve_with_inequality',
+            'parameters lie in their registered domains (solver.cpp:207-214): 0 < s0 <= 1, 1 < miu <= 1e6, 0 < alpha < 1, 0 < beta < 1, '
+            '0 <= epsilon, epsilon0 <= 1e-3, 10 <= max_iters, max_lsearch_iters <= 1000',
+            'IEEE facts, everything else about double + - * / uninterpreted: a * b for 0 <= b <= 1 lies between 0 and a (NaN stays NaN, +-inf times '
+            'b > 0 stays), -a flips the sign exactly, a / b for a, b < 0 is >= 0 or NaN',
+            'logger calls have no effect on the modelled state (dropped, including the program.feasible(state) evaluated only for logging)',
+            'solver_status enumerators are pairwise distinct (values copied from include/nano/solver/status.h)',
+        ],
         'trusted': [],
     }
+
+
+def replay(rp):
+    """solver_done_nan: the counterexample (eta, |rdual|, |rprim|, epsilon) is put into a real solver_state_t (one-coefficient
+    residual vectors) of a feasible one-variable program and the REAL solver_t::done is run (src/program/solver.cpp included
+    verbatim by the driver to reach the private function); the driver evaluates converged => all three below epsilon."""
+    import math
+    import replaylib
+    out = {'reproduced': False, 'runs': []}
+    if rp['target'] != 'solver_done_nan':
+        out['note'] = 'no native driver for this target: the replay file carries the verifier output only'
+        return out
+    exe = replaylib.build_with_library('replay/C04_replay.cpp', 'C04_replay')
+    cands = []
+    for fo in rp['failed_obligations']:
+        ce = fo.get('counterexample') or {}
+        eps = next((v for k, v in ce.items() if k.endswith('epsilon')), None)
+        eta = next((v for k, v in ce.items() if k.endswith('.m_eta')), None)
+        norms = [v for k, v in ce.items() if 'return_value_nv_e_norm2' in k]
+        if isinstance(eps, float) and isinstance(eta, float) and len(norms) >= 2:
+            cands.append([eta, norms[-2], norms[-1], eps])
+    cands += [[0.0, float('nan'), 0.0, 1e-10], [0.0, 0.0, float('nan'), 1e-10]]
+    for c in cands:
+        # a 1-coefficient residual vector has norm |value|: negative "norms" cannot occur, NaN / non-negative ones can
+        if any(isinstance(x, float) and not math.isnan(x) and x < 0 for x in c[1:3]):
+            continue
+        rc, so, se = replaylib.run_driver(exe, [repr(float(x)) for x in c])
+        out['runs'].append({'eta_rdual_rprim_epsilon': [repr(x) for x in c], 'exit': rc, 'output': so.strip()[:600]})
+        if rc == 1:
+            out['reproduced'] = True
+    return out
